@@ -391,6 +391,16 @@ impl Reactor for Broker {
                             d["ev"] = json!("c2s");
                             d["rawtype"] = json!(raw.ty);
                             d["rawch"] = json!(raw.ch);
+                            // strict reading: the frame must be exactly the encoding of what it decodes to
+                            // (the decoder itself tolerates trailing bytes and over-long short strings)
+                            // Checked for Connection.Close only: amq-protocol 1.4 itself decodes some flag
+                            // bits of other methods wrongly (no-ack, auto-delete, ...), so re-encoding those
+                            // proves nothing about the client.
+                            if matches!(frame, AMQPFrame::Method(0, AMQPClass::Connection(Cn::Close(_))))
+                                && wire::encode(&frame) != raw.bytes
+                            {
+                                d["strict"] = json!(false);
+                            }
                             gev(d);
                         }
                     }
